@@ -1,1 +1,312 @@
-From Coq Require Import ZArith List.
+(* List<T> and PoolList<T>, whole histories over several variables: every step of the model
+   keeps the pool invariant of every variable and refines the step of the reference sequences
+   (contents, order, size, rank designated by the returned iterator/reference). *)
+From Coq Require Import ZArith List Bool Lia Sorting.Sorted Sorting.Permutation.
+From Common Require Import ListAux.
+From Seq Require Import SeqSpec SeqModel SeqSortProofs SeqPoolProofs.
+Import ListNotations.
+Local Open Scope nat_scope.
+
+Definition linv (w : lworld) : Prop := Forall nl_inv w.
+
+Lemma map_upd {A B} (f : A -> B) i x l : map f (upd i x l) = upd i (f x) (map f l).
+Proof. revert i; induction l as [|h t IH]; intros [|i]; cbn; auto. f_equal. apply IH. Qed.
+
+Lemma labs_upd i l w : labs (upd i l w) = upd i (vals (nodes l)) (labs w).
+Proof. unfold labs. apply (map_upd (fun l => vals (nodes l))). Qed.
+
+Lemma labs_length w : length (labs w) = length w.
+Proof. apply map_length. Qed.
+
+Lemma sget_labs i w : sget i (labs w) = vals (nodes (lget i w)).
+Proof. exact (map_nth (fun l => vals (nodes l)) w nl_empty i). Qed.
+
+Lemma linv_init nv : linv (linit nv).
+Proof. unfold linv, linit. induction nv as [|n IH]; cbn; constructor; [apply nl_inv_empty|exact IH]. Qed.
+
+Lemma labs_init nv : labs (linit nv) = sinit nv.
+Proof. unfold labs, linit, sinit. induction nv as [|n IH]; cbn; [reflexivity|]. f_equal. exact IH. Qed.
+
+Lemma linv_get i w : linv w -> nl_inv (lget i w).
+Proof.
+  intros H. unfold lget. destruct (Nat.lt_ge_cases i (length w)) as [L|L].
+  - eapply Forall_forall; [exact H|]. apply nth_In. exact L.
+  - rewrite nth_overflow by exact L. apply nl_inv_empty.
+Qed.
+
+Lemma linv_upd i l w : linv w -> nl_inv l -> linv (upd i l w).
+Proof.
+  intros H Hl. revert i. induction H as [|x t Hx Ht IH]; intros [|i]; cbn; constructor; auto.
+  apply IH.
+Qed.
+
+Lemma lget_upd_same i l w : i < length w -> lget i (upd i l w) = l.
+Proof. apply nth_upd_same. Qed.
+
+Lemma lget_upd_other i j l w : i <> j -> lget j (upd i l w) = lget j w.
+Proof. apply nth_upd_other. Qed.
+
+Lemma lsize_len w i : linv w -> lsize w i = length (nodes (lget i w)).
+Proof. intros H. unfold lsize. apply (proj2 (linv_get i w H)). Qed.
+
+Lemma ssize_labs w : linv w -> forall i, ssize (labs w) i = lsize w i.
+Proof. intros H i. rewrite lsize_len by exact H. unfold ssize. rewrite sget_labs. apply vals_length. Qed.
+
+Lemma lpre_ext sz1 sz2 nv op : (forall i, sz1 i = sz2 i) -> lpre sz1 nv op = lpre sz2 nv op.
+Proof. intros E. destruct op; cbn [lpre]; rewrite ?E; reflexivity. Qed.
+
+Lemma ppre_ext sz1 sz2 nv op : (forall i, sz1 i = sz2 i) -> ppre sz1 nv op = ppre sz2 nv op.
+Proof. intros E. destruct op; cbn [ppre]; rewrite ?E; reflexivity. Qed.
+
+Lemma lobs_it w i it : lobs_res w (MIt i it) = RIt (obs_it it (nodes (lget i w))).
+Proof. destruct it; reflexivity. Qed.
+
+Lemma ins_at_0 (x l : sseq) : ins_at 0 x l = x ++ l.
+Proof. reflexivity. Qed.
+
+Ltac bools :=
+  repeat match goal with
+  | H : _ && _ = true |- _ => apply andb_true_iff in H; destruct H
+  | H : negb _ = true |- _ => apply negb_true_iff in H
+  | H : Nat.ltb _ _ = true |- _ => apply Nat.ltb_lt in H
+  | H : Nat.leb _ _ = true |- _ => apply Nat.leb_le in H
+  | H : Nat.eqb _ _ = false |- _ => apply Nat.eqb_neq in H
+  end.
+
+(* the three removal forms share this *)
+Lemma remove_step k i w l1 it :
+    linv w -> i < length w -> k < length (nodes (lget i w)) -> nl_remove k (lget i w) = (l1, it) ->
+    linv (upd i l1 w)
+    /\ labs (upd i l1 w) = upd i (del_at k (sget i (labs w))) (labs w)
+    /\ lobs_res (upd i l1 w) (MIt i it) = RIt k.
+Proof.
+  intros I Hi Hk E.
+  destruct (nl_remove_refines _ _ _ _ (linv_get i w I) E Hk) as (I1 & Hv & Ho).
+  split; [apply linv_upd; assumption|]. split.
+  - rewrite labs_upd, sget_labs, Hv. reflexivity.
+  - rewrite lobs_it, lget_upd_same by exact Hi. rewrite Ho. reflexivity.
+Qed.
+
+(* ------------------------------------------------------------------------------------- *)
+(* List<T>                                                                                 *)
+(* ------------------------------------------------------------------------------------- *)
+Theorem lstep_refines key w op w' r : linv w -> lstep key w op = (w', r) ->
+    linv w' /\ lspec key (labs w) op (labs w') (lobs_res w' r).
+Proof.
+  intros I H. unfold lstep in H.
+  assert (Epre : lpre (ssize (labs w)) (length (labs w)) op = lpre (lsize w) (length w) op).
+  { rewrite labs_length. apply lpre_ext. apply ssize_labs. exact I. }
+  destruct (lpre (lsize w) (length w) op) eqn:Hpre; cbn [negb] in H.
+  2:{ inversion H; subst w' r. split; [exact I|].
+      destruct op; cbn [lspec]; unfold lspec_fun; rewrite ?Epre; cbn [negb lobs_res]; try reflexivity.
+      split; reflexivity. }
+  destruct op; cbn [lpre] in Hpre; bools; cbn [lspec]; unfold lspec_fun; rewrite Epre; cbn [negb];
+    try rewrite (lsize_len w i I) in *.
+  - (* LNew *)
+    inversion H; subst w' r. split; [apply linv_upd; [exact I|apply nl_inv_empty]|].
+    rewrite labs_upd. reflexivity.
+  - (* LAppend *)
+    destruct (nl_append v (lget i w)) as [l1 s] eqn:E. inversion H; subst w' r.
+    destruct (nl_append_refines _ _ _ _ (linv_get i w I) E) as (I1 & Hv & Hr & _).
+    split; [apply linv_upd; assumption|].
+    rewrite labs_upd, sget_labs. cbn [lobs_res]. rewrite lget_upd_same by assumption. rewrite Hv, Hr. reflexivity.
+  - (* LPrepend *)
+    destruct (nl_insert 0 v (lget i w)) as [l1 s] eqn:E. inversion H; subst w' r.
+    destruct (nl_insert_refines _ _ _ _ _ (linv_get i w I) E (Nat.le_0_l _)) as (I1 & Hv & Hr).
+    split; [apply linv_upd; assumption|].
+    rewrite labs_upd, sget_labs. cbn [lobs_res]. rewrite lget_upd_same by assumption. rewrite Hv, Hr. reflexivity.
+  - (* LAppends *)
+    inversion H; subst w' r.
+    destruct (nl_append_all_refines vs (lget i w) (linv_get i w I)) as (I1 & Hv).
+    split; [apply linv_upd; assumption|].
+    rewrite labs_upd, sget_labs, Hv. reflexivity.
+  - (* LInsert *)
+    destruct (nl_insert k v (lget i w)) as [l1 s] eqn:E. inversion H; subst w' r.
+    destruct (nl_insert_refines _ _ _ _ _ (linv_get i w I) E ltac:(assumption)) as (I1 & Hv & Hr).
+    split; [apply linv_upd; assumption|].
+    rewrite labs_upd, sget_labs. cbn [lobs_res]. rewrite lget_upd_same by assumption. rewrite Hv, Hr. reflexivity.
+  - (* LInsertList *)
+    destruct (nl_insert_list k (vals (nodes (lget j w))) (lget i w)) as [l1 it] eqn:E. inversion H; subst w' r.
+    destruct (nl_insert_list_refines _ _ _ _ _ (linv_get i w I) E ltac:(assumption)) as (I1 & Hv & Hr).
+    split; [apply linv_upd; assumption|].
+    rewrite labs_upd, !sget_labs. rewrite lobs_it, lget_upd_same by assumption. rewrite Hv, Hr. reflexivity.
+  - (* LAppendList *)
+    inversion H; subst w' r.
+    destruct (nl_insert_list (length (nodes (lget i w))) (vals (nodes (lget j w))) (lget i w)) as [l1 it] eqn:E.
+    destruct (nl_insert_list_refines _ _ _ _ _ (linv_get i w I) E (le_n _)) as (I1 & Hv & _). cbn [fst].
+    split; [apply linv_upd; assumption|].
+    rewrite labs_upd, !sget_labs, Hv. rewrite <- (vals_length (nodes (lget i w))). rewrite ins_at_end. reflexivity.
+  - (* LPrependList *)
+    inversion H; subst w' r.
+    destruct (nl_insert_list 0 (vals (nodes (lget j w))) (lget i w)) as [l1 it] eqn:E.
+    destruct (nl_insert_list_refines _ _ _ _ _ (linv_get i w I) E (Nat.le_0_l _)) as (I1 & Hv & _). cbn [fst].
+    split; [apply linv_upd; assumption|].
+    rewrite labs_upd, !sget_labs, Hv. reflexivity.
+  - (* LRemove *)
+    destruct (nl_remove k (lget i w)) as [l1 it] eqn:E. inversion H; subst w' r.
+    destruct (remove_step k i w l1 it I ltac:(assumption) ltac:(assumption) E) as (I1 & Ha & Ho).
+    split; [exact I1|]. rewrite Ha, Ho. reflexivity.
+  - (* LRemoveVal *)
+    inversion H; subst w' r.
+    destruct (nl_remove_val_refines v (lget i w) (linv_get i w I)) as (I1 & Hv).
+    split; [apply linv_upd; assumption|].
+    rewrite labs_upd, sget_labs, Hv. reflexivity.
+  - (* LRemoveFront *)
+    destruct (nl_remove 0 (lget i w)) as [l1 it] eqn:E. inversion H; subst w' r.
+    destruct (remove_step 0 i w l1 it I ltac:(assumption) ltac:(assumption) E) as (I1 & Ha & Ho).
+    split; [exact I1|]. rewrite Ha, Ho. rewrite del_at_0. reflexivity.
+  - (* LRemoveBack *)
+    destruct (nl_remove (pred (length (nodes (lget i w)))) (lget i w)) as [l1 it] eqn:E. inversion H; subst w' r.
+    destruct (remove_step (pred (length (nodes (lget i w)))) i w l1 it I ltac:(assumption) ltac:(lia) E) as (I1 & Ha & Ho).
+    split; [exact I1|]. rewrite Ha, Ho. rewrite sget_labs. rewrite <- (vals_length (nodes (lget i w))).
+    rewrite del_at_last. reflexivity.
+  - (* LFind *)
+    inversion H; subst w' r. split; [exact I|].
+    rewrite lobs_it, sget_labs. rewrite (nl_find_refines v _ (linv_get i w I)). reflexivity.
+  - (* LClear *)
+    inversion H; subst w' r.
+    destruct (nl_clear_refines _ (linv_get i w I)) as (I1 & Hv).
+    split; [apply linv_upd; assumption|]. rewrite labs_upd, Hv. reflexivity.
+  - (* LSwap *)
+    inversion H; subst w' r.
+    split; [apply linv_upd; [apply linv_upd; [exact I|]|]; apply linv_get; exact I|].
+    rewrite !labs_upd, !sget_labs. reflexivity.
+  - (* LEq *)
+    inversion H; subst w' r. split; [exact I|]. cbn [lobs_res]. rewrite !sget_labs.
+    rewrite nl_eqb_refines by (apply linv_get; exact I). reflexivity.
+  - (* LNe *)
+    inversion H; subst w' r. split; [exact I|]. cbn [lobs_res]. rewrite !sget_labs.
+    rewrite nl_eqb_refines by (apply linv_get; exact I). reflexivity.
+  - (* LCopy *)
+    inversion H; subst w' r.
+    destruct (nl_append_all_refines (vals (nodes (lget j w))) nl_empty nl_inv_empty) as (I1 & Hv).
+    split; [apply linv_upd; assumption|]. rewrite labs_upd, sget_labs, Hv. reflexivity.
+  - (* LAssign *)
+    inversion H; subst w' r.
+    destruct (nl_clear_refines _ (linv_get i w I)) as (I0 & Hc).
+    destruct (nl_append_all_refines (vals (nodes (lget j w))) _ I0) as (I1 & Hv).
+    split; [apply linv_upd; assumption|]. rewrite labs_upd, sget_labs, Hv, Hc. reflexivity.
+  - (* LSort *)
+    inversion H; subst w' r.
+    destruct (nl_sort_refines key _ (linv_get i w I)) as (I1 & Hv & _).
+    split; [apply linv_upd; assumption|].
+    split; [reflexivity|].
+    exists (sort_vals key (vals (nodes (lget i w)))). split.
+    + rewrite sget_labs. apply sort_vals_correct.
+    + rewrite labs_upd, Hv. reflexivity.
+Qed.
+
+(* sort moves values only: every node stays in its slot, so iterators held across sort() keep
+   designating the same position *)
+Lemma lsort_keeps_nodes key l : nl_inv l -> slots (nodes (nl_sort key l)) = slots (nodes l).
+Proof. intros I. apply (nl_sort_refines key l I). Qed.
+
+(* whole histories *)
+Definition lobs_trace (tr : list (lworld * mres)) : list (sstate * res) :=
+  map (fun wr => (labs (fst wr), lobs_res (fst wr) (snd wr))) tr.
+
+Lemma lrun_refines key ops : forall w, linv w ->
+    lspec_run key (labs w) ops (lobs_trace (lrun key w ops))
+    /\ Forall (fun wr => linv (fst wr)) (lrun key w ops).
+Proof.
+  induction ops as [|op t IH]; intros w I; cbn [lrun].
+  - split; constructor.
+  - destruct (lstep key w op) as [w1 r] eqn:E.
+    destruct (lstep_refines key w op w1 r I E) as (I1 & S).
+    destruct (IH w1 I1) as (R & F). split.
+    + cbn [lobs_trace map fst snd]. econstructor; [exact S|exact R].
+    + constructor; [exact I1|exact F].
+Qed.
+
+Theorem list_history_refines key nv ops :
+    lspec_run key (sinit nv) ops (lobs_trace (lrun key (linit nv) ops)).
+Proof. rewrite <- labs_init. apply lrun_refines. apply linv_init. Qed.
+
+(* ------------------------------------------------------------------------------------- *)
+(* PoolList<T>                                                                             *)
+(* ------------------------------------------------------------------------------------- *)
+Theorem pstep_refines w op w' r : linv w -> pstep w op = (w', r) ->
+    linv w' /\ pspec (labs w) op = (labs w', lobs_res w' r).
+Proof.
+  intros I H. unfold pstep in H.
+  assert (Epre : ppre (ssize (labs w)) (length (labs w)) op = ppre (lsize w) (length w) op).
+  { rewrite labs_length. apply ppre_ext. apply ssize_labs. exact I. }
+  unfold pspec. rewrite Epre.
+  destruct (ppre (lsize w) (length w) op) eqn:Hpre; cbn [negb] in *.
+  2:{ inversion H; subst w' r. split; [exact I|reflexivity]. }
+  destruct op; cbn [ppre] in Hpre; bools; try rewrite (lsize_len w i I) in *.
+  - (* PNew *)
+    inversion H; subst w' r. split; [apply linv_upd; [exact I|apply nl_inv_empty]|].
+    rewrite labs_upd. reflexivity.
+  - (* PAppend *)
+    destruct (nl_append v (lget i w)) as [l1 s] eqn:E. inversion H; subst w' r.
+    destruct (nl_append_refines _ _ _ _ (linv_get i w I) E) as (I1 & Hv & Hr & _).
+    split; [apply linv_upd; assumption|].
+    rewrite labs_upd, sget_labs. cbn [lobs_res]. rewrite lget_upd_same by assumption. rewrite Hv, Hr. reflexivity.
+  - (* PRemove *)
+    destruct (nl_remove k (lget i w)) as [l1 it] eqn:E. inversion H; subst w' r.
+    destruct (remove_step k i w l1 it I ltac:(assumption) ltac:(assumption) E) as (I1 & Ha & Ho).
+    split; [exact I1|]. rewrite Ha, Ho. reflexivity.
+  - (* PRemoveRef *)
+    destruct (nl_remove k (lget i w)) as [l1 it] eqn:E. inversion H; subst w' r. cbn [fst].
+    destruct (remove_step k i w l1 it I ltac:(assumption) ltac:(assumption) E) as (I1 & Ha & Ho).
+    split; [exact I1|]. rewrite Ha. reflexivity.
+  - (* PRemoveFront *)
+    destruct (nl_remove 0 (lget i w)) as [l1 it] eqn:E. inversion H; subst w' r.
+    destruct (remove_step 0 i w l1 it I ltac:(assumption) ltac:(assumption) E) as (I1 & Ha & Ho).
+    split; [exact I1|]. rewrite Ha, Ho. rewrite del_at_0. reflexivity.
+  - (* PRemoveBack *)
+    destruct (nl_remove (pred (length (nodes (lget i w)))) (lget i w)) as [l1 it] eqn:E. inversion H; subst w' r.
+    destruct (remove_step (pred (length (nodes (lget i w)))) i w l1 it I ltac:(assumption) ltac:(lia) E) as (I1 & Ha & Ho).
+    split; [exact I1|]. rewrite Ha, Ho. rewrite sget_labs. rewrite <- (vals_length (nodes (lget i w))).
+    rewrite del_at_last. reflexivity.
+  - (* PClear *)
+    inversion H; subst w' r.
+    destruct (nl_clear_refines _ (linv_get i w I)) as (I1 & Hv).
+    split; [apply linv_upd; assumption|]. rewrite labs_upd, Hv. reflexivity.
+  - (* PSwap *)
+    inversion H; subst w' r.
+    split; [apply linv_upd; [apply linv_upd; [exact I|]|]; apply linv_get; exact I|].
+    rewrite !labs_upd, !sget_labs. reflexivity.
+Qed.
+
+Lemma prun_refines ops : forall w, linv w ->
+    pspec_run (labs w) ops = lobs_trace (prun w ops) /\ Forall (fun wr => linv (fst wr)) (prun w ops).
+Proof.
+  induction ops as [|op t IH]; intros w I; cbn [prun pspec_run].
+  - split; [reflexivity|constructor].
+  - destruct (pstep w op) as [w1 r] eqn:E.
+    destruct (pstep_refines w op w1 r I E) as (I1 & S). rewrite S.
+    destruct (IH w1 I1) as (R & F). split.
+    + cbn [lobs_trace map fst snd]. f_equal. exact R.
+    + constructor; [exact I1|exact F].
+Qed.
+
+Theorem poollist_history_refines nv ops :
+    pspec_run (sinit nv) ops = lobs_trace (prun (linit nv) ops).
+Proof. rewrite <- labs_init. apply prun_refines. apply linv_init. Qed.
+
+(* ------------------------------------------------------------------------------------- *)
+(* what the ranks of the reference object mean: rank k after an insertion at k is the       *)
+(* inserted element, rank k after a removal at k is the successor of the removed one        *)
+(* ------------------------------------------------------------------------------------- *)
+Lemma ins_at_designates k (x : list Z) v (l : sseq) : k <= length l ->
+    nth_error (ins_at k (v :: x) l) k = Some v.
+Proof.
+  intros Hk. unfold ins_at. rewrite nth_error_app2 by (rewrite firstn_length_le; lia).
+  rewrite firstn_length_le by exact Hk. rewrite Nat.sub_diag. reflexivity.
+Qed.
+
+Lemma del_at_designates k (l : sseq) : k < length l ->
+    nth_error (del_at k l) k = nth_error l (S k) /\ length (del_at k l) = pred (length l).
+Proof.
+  intros Hk. unfold del_at. split.
+  - rewrite nth_error_app2 by (rewrite firstn_length_le; lia).
+    rewrite firstn_length_le by lia. rewrite Nat.sub_diag.
+    rewrite <- (firstn_skipn (S k) l) at 2. rewrite nth_error_app2 by (rewrite firstn_length_le; lia).
+    rewrite firstn_length_le by lia. rewrite Nat.sub_diag. reflexivity.
+  - rewrite app_length, firstn_length_le, skipn_length by lia. lia.
+Qed.
+
+Lemma append_designates (l : sseq) v : nth_error (l ++ [v]) (length l) = Some v.
+Proof. rewrite nth_error_app2 by lia. rewrite Nat.sub_diag. reflexivity. Qed.
